@@ -114,6 +114,12 @@ def check_cli_fill(res, year, out, typed, label, rp, hx, pdfspec, pdfdrive):
         for pf in fo.pdf_fields():
             q = pf.field_name if '.' in pf.field_name else f'{fo.name()}.{pf.field_name}'
             if q not in typed:
+                # a line the solved return does not have: its box stays empty (nothing of an earlier fill, of another form or
+                # of another return may show up there)
+                got0 = pairs.get(pf.pdf_field_name)
+                res.count('cli_fdf_absent_line_boxes_checked')
+                if got0 is not None and got0.strip() not in ('', 'Off', '0'):
+                    res.violation(f'C19|{year}|cli-box-filled-for-a-line-the-return-does-not-have', f'{label}: {name}: box {pf.pdf_field_name.split(".")[-1]} is mapped to {q}, which the solved return does not contain, yet carries {got0[:40]!r}', rp)
                 continue
             fld = fields.get(q)
             if fld is None:
